@@ -1,3 +1,4 @@
+import BlockCiphers.Proofs.Kuznyechik
 import BlockCiphers.Proofs.AesNiPar
 import BlockCiphers.Proofs.AesFs64Lanes
 import BlockCiphers.Proofs.AesFs64Aes128
@@ -13,6 +14,45 @@ depends only on block j (lane_indep) and a batch under one key = map of the sing
 ParBlocksSize = 1: its multi-block call is the cipher crate's loop over encrypt_block (modelled as `map` in History.fresh).  The memory part
 (nothing outside the output blocks is written) is observed by canaries only — partial, see DESIGN §7 C04.
 -/
+
+namespace BC.Kuznyechik
+open BC.Spec.Kuznyechik
+/-- big_soft: `encrypt_blocks` (ParBlocksSize 3) / `decrypt_blocks` (ParBlocksSize 1) -/
+theorem C04.kuz_soft_blocks_eq_map (k : RoundKeys) (bs : List (BitVec 128)) :
+    procBlocks Soft.parEnc (Soft.encrypt_par_blocks k) (Soft.encrypt_block k) bs = bs.map (Soft.encrypt_block k) ∧
+    procBlocks Soft.parDec (fun bs => bs.map (Soft.decrypt_block k)) (Soft.decrypt_block k) bs =
+      bs.map (Soft.decrypt_block k) :=
+  _root_.BC.Kuznyechik.Soft.blocks_eq_map k bs
+end BC.Kuznyechik
+
+namespace BC.Kuznyechik
+open BC.Spec.Kuznyechik
+/-- sse2: `encrypt_blocks` / `decrypt_blocks` (ParBlocksSize 4) -/
+theorem C04.kuz_sse2_blocks_eq_map (k : RoundKeys) (bs : List (BitVec 128)) :
+    procBlocks Sse2.parEnc (Sse2.encrypt_par_blocks k) (Sse2.encrypt_block k) bs = bs.map (Sse2.encrypt_block k) ∧
+    procBlocks Sse2.parDec (Sse2.decrypt_par_blocks k) (Sse2.decrypt_block k) bs = bs.map (Sse2.decrypt_block k) :=
+  _root_.BC.Kuznyechik.Sse2.blocks_eq_map k bs
+end BC.Kuznyechik
+
+namespace BC.Kuznyechik
+open BC.Spec.Kuznyechik
+/-- neon model: `encrypt_blocks` / `decrypt_blocks` (ParBlocksSize 8) -/
+theorem C04.kuz_neon_blocks_eq_map (k : RoundKeys) (bs : List (BitVec 128)) :
+    procBlocks Neon.parEnc (Neon.encrypt_par_blocks k) (Neon.encrypt_block k) bs = bs.map (Neon.encrypt_block k) ∧
+    procBlocks Neon.parDec (Neon.decrypt_par_blocks k) (Neon.decrypt_block k) bs = bs.map (Neon.decrypt_block k) :=
+  _root_.BC.Kuznyechik.Neon.blocks_eq_map k bs
+end BC.Kuznyechik
+
+namespace BC.Kuznyechik
+open BC.Spec.Kuznyechik
+/-- compact_soft: ParBlocksSize 1 -/
+theorem C04.kuz_compact_blocks_eq_map (k : RoundKeys) (bs : List (BitVec 128)) :
+    procBlocks 1 (fun bs => bs.map (Compact.encrypt_block k)) (Compact.encrypt_block k) bs =
+      bs.map (Compact.encrypt_block k) ∧
+    procBlocks 1 (fun bs => bs.map (Compact.decrypt_block k)) (Compact.decrypt_block k) bs =
+      bs.map (Compact.decrypt_block k) :=
+  _root_.BC.Kuznyechik.Compact.blocks_eq_map k bs
+end BC.Kuznyechik
 
 namespace BC.AesNi
 open BC BC.X86
